@@ -164,7 +164,29 @@ class World:
             info['node'] = node
             t0 = s.now
             race = scen.get('race')
-            if race:
+            if race and race['kind'] == 'interval-split':
+                # the changing thread is preempted before the k-th line of PollInfo.update_interval: the poll thread runs (if it
+                # has been woken already) until it waits again, only then the change is completed
+                import frappy.modulebase as MB_
+                D.vsleep(race['arm_at'])
+                mod = node.secnode.modules[scen['mods'][0]['name']]
+                code = MB_.PollInfo.update_interval.__code__
+                st = {'n': 0}
+                me_root = s.me() if hasattr(s, 'me') else None
+
+                def hook(code_, line, me):
+                    if code_ is code and st['n'] >= 0:
+                        st['n'] += 1
+                        if st['n'] == race['k']:
+                            st['n'] = -1
+                            info['race_line'] = line
+                            D.vsleep(0.0005)
+                D.LINE_HOOK = hook
+                mod.pollinterval = race['val']
+                D.LINE_HOOK = None
+                info.setdefault('changes', []).append((s.now, 0, 'interval', race['val']))
+                race = 'done'
+            if race and race != 'done':
                 # the change is made "by another thread" exactly before the k-th line the poll thread executes in its
                 # main loop after the arming time (wake-up races between computing the waiting time and waiting)
                 D.vsleep(race['arm_at'])
@@ -204,7 +226,8 @@ class World:
             node.secnode.shutdown_modules()
         s = D.Sched(('seq',), 0, horizon=scen['T'] + 200, grace=30, max_steps=400_000)
         if scen.get('race'):
-            D.watch_lines(C.Module._Module__pollThread)
+            import frappy.modulebase as MB_
+            D.watch_lines(C.Module._Module__pollThread, MB_.PollInfo.update_interval)
         try:
             s.run(root, wall_timeout=120)
         finally:
@@ -360,6 +383,18 @@ def run_shard(shard):
                 r.count('wakeup_race_injections')
                 r.maximum('wakeup_race_max_line_index', k)
             w.judge(scen, s, LOG, info)
+    # the converse: the thread that changes the interval is preempted inside PollInfo.update_interval
+    for k in (1, 2, 3, 4, 5, 6):
+        iv = [50, 100][(k + shard['idx']) % 2]
+        scen = {'mods': [{'name': 'm0', 'pollinterval': iv, 'slowinterval': 120, 'dopoll': 0, 'reads': {}, 'value_read': 0, 'nopoll': [],
+                          'failrate': 0, 'failkind': 'secop', 'comfail_startup': False}],
+                'shared': False, 'changes': [[1, 0, 'interval', 0.5]], 'T': 60, 'rngseed': 1,
+                'race': {'k': k, 'kind': 'interval-split', 'val': 0.5, 'arm_at': round(20 + 0.37 * k + 0.11 * shard['idx'], 3)}}
+        s, LOG, info = w.run(scen)
+        r.count('interval_change_preempted_runs')
+        if 'race_line' in info:
+            r.count('interval_change_preemptions')
+        w.judge(scen, s, LOG, info)
     r.count('virtual_seconds', vsecs)
     return r.result()
 
